@@ -433,7 +433,7 @@ class C13(Check):
                             'single-interval levels are dropped from the curve by the code (known behaviour, see C08 finding); the oracle checks the rows that are present '
                             'and that no foreign level/interval appears']
         self.stubs = ['sqlite3 -> vf.symsql (foreign keys off, as in the real commands)', 'numpy -> vf.nplite', 'interp1d / brentq (root strictly inside, chord equation as lazy fact) / linalg.solve']
-        self.outside = ['records other than the three patterns', 'gaps (C01/C03 DB harness)']
+        self.outside = ['records other than the %d patterns listed under bounds' % len(PATTERNS), 'more than one hole in the level record (one hole is a configuration; arbitrary gap layouts are the C01/C03 DB harness)']
         self.run_conformance(patterns=None)
         for c in cfgs:
             name = config_name(c)
